@@ -191,7 +191,29 @@ static void handle(int argc, char **argv) {
             orc = cif_write(o, NULL, cif);
             fclose(o);
             free(out);
-            mrc = cif_create_block(cif, bcode, &b);
+            /* every data block the CIF lists can be re-opened by the code it reports — also the blocks the parser's recovery made
+               (the anonymous block for data in front of the first header, blocks whose invalid code was accepted) */
+            {
+                cif_block_tp **all = NULL, **q;
+                int lrc = cif_get_all_blocks(cif, &all);
+                if (lrc == CIF_OK && all != NULL) {
+                    for (q = all; *q != NULL; q++) {
+                        UChar *code = NULL;
+                        cif_block_tp *again = NULL;
+                        int r1 = cif_container_get_code(*q, &code);
+                        /* (not for codes with units that SQLite does not hand back as stored: U+FFFE / U+FFFF / unpaired surrogates come back as U+FFFD; only a
+                           parse that accepted CIF_DISALLOWED_CHAR in a block code can have put there) */
+                        if (r1 == CIF_OK) { const UChar *c; for (c = code; *c; c++) if (*c >= 0xFFFD || (*c >= 0xD800 && *c <= 0xDFFF)) break; if (*c) { free(code); cif_container_free(*q); continue; } }
+                        if (r1 == CIF_OK) { r1 = cif_get_block(cif, code, &again); if (again) cif_container_free(again); }
+                        if (r1 != CIF_OK && lrc == CIF_OK) lrc = 2000 + r1;
+                        free(code);
+                        cif_container_free(*q);
+                    }
+                    free(all);
+                }
+                mrc = lrc;
+            }
+            if (mrc == CIF_OK) mrc = cif_create_block(cif, bcode, &b);
             if (mrc == CIF_DUP_BLOCKCODE) mrc = cif_get_block(cif, bcode, &b);
             if (mrc == CIF_OK) {
                 cif_value_tp *v = NULL;
